@@ -51,7 +51,7 @@ struct Run : ContBase {
         bool valid = pos >= 0 && pos <= n;
         std::string e = gen_elem(); Buf eb(e);
         size_t max0 = v->max;
-        errno = 0;
+        errno = poison;
         bool ok = api == 0 ? qvector_addfirst(v, eb.p) : api == 1 ? qvector_addlast(v, eb.p) : qvector_addat(v, (int)idx, eb.p);
         int er = errno;
         if (scribble) eb.scribble();
@@ -69,7 +69,7 @@ struct Run : ContBase {
         bool newmem = s.boolean();
         long n = (long)m.size(), pos = idx < 0 ? n + idx : idx;
         bool valid = pos >= 0 && pos < n;
-        errno = 0;
+        errno = poison;
         void *p = api == 0 ? qvector_getfirst(v, newmem) : api == 1 ? qvector_getlast(v, newmem) : qvector_getat(v, (int)idx, newmem);
         int er = errno;
         c.op("%s(%ld,newmem=%d) n=%ld", api == 0 ? "getfirst" : api == 1 ? "getlast" : "getat", idx, (int)newmem, n);
@@ -87,7 +87,7 @@ struct Run : ContBase {
         long n = (long)m.size(), pos = idx < 0 ? n + idx : idx;
         bool valid = pos >= 0 && pos < n;
         std::string e = gen_elem(); Buf eb(e);
-        errno = 0;
+        errno = poison;
         bool ok = api == 0 ? qvector_setfirst(v, eb.p) : api == 1 ? qvector_setlast(v, eb.p) : qvector_setat(v, (int)idx, eb.p);
         if (scribble) eb.scribble();
         c.op("%s(%ld,%s) n=%ld", api == 0 ? "setfirst" : api == 1 ? "setlast" : "setat", idx, hexs(e, 8).c_str(), n);
@@ -102,7 +102,7 @@ struct Run : ContBase {
         long n = (long)m.size(), pos = idx < 0 ? n + idx : idx;
         bool valid = pos >= 0 && pos < n;
         void *p = nullptr; bool ok;
-        errno = 0;
+        errno = poison;
         if (pop) { p = api == 0 ? qvector_popfirst(v) : api == 1 ? qvector_poplast(v) : qvector_popat(v, (int)idx); ok = p != nullptr; }
         else ok = api == 0 ? qvector_removefirst(v) : api == 1 ? qvector_removelast(v) : qvector_removeat(v, (int)idx);
         int er = errno;
@@ -126,7 +126,7 @@ struct Run : ContBase {
     }
     void do_toarray() {
         size_t cnt = 4242;
-        errno = 0;
+        errno = poison;
         void *p = qvector_toarray(v, &cnt);
         int er = errno;
         c.op("toarray() n=%zu", m.size());
@@ -140,7 +140,7 @@ struct Run : ContBase {
         c.op("walk(newmem=%d) n=%zu", (int)newmem, m.size());
         qvector_obj_t o; memset(&o, 0, sizeof o);
         size_t i = 0;
-        errno = 0;
+        errno = poison;
         while (qvector_getnext(v, &o, newmem)) {
             if (i >= m.size()) c.fail(FUNC, "vector:walk-extra", "walk returned more than %zu elements", m.size());
             if (memcmp(o.data, m[i].data(), objsize) != 0) c.fail(FUNC, "vector:walk-order", "walk step %zu returned %s, expected %s", i, hexs(o.data, objsize, 12).c_str(), hexs(m[i], 12).c_str());
@@ -153,6 +153,7 @@ struct Run : ContBase {
     }
 
     void run() {
+        draw_poison();
         objsize = s.pick({3, 1}) == 0 ? (size_t)s.range(1, 16) : (size_t)s.range(17, 64);
         cap = (size_t)s.range(0, 8);
         policy = (int)s.range(0, 2);
